@@ -325,6 +325,10 @@ func (p *parser) _recover() bool {
 
 	for {
 		save := p._stack
+		// The Error to deliver. When recovery pops an @error that was shifted
+		// but whose production was never reduced, no action has seen that
+		// Error: it blames the earlier token and takes precedence.
+		deliver := errSym
 
 		for len(p._stack) >= 1 {
 			// Simulate, without running any action, what the parser does with ERROR
@@ -376,10 +380,13 @@ func (p *parser) _recover() bool {
 				p._qla = p._la
 				p._qlasym = p._lasym
 				p._la = ERROR
-				p._lasym = errSym
+				p._lasym = deliver
 				return true
 			}
 
+			if e, ok := p._stack.Peek(0).Sym.(Error); ok {
+				deliver = e
+			}
 			p._stack.Pop(1)
 		}
 
